@@ -27,6 +27,8 @@ def refStep (r : Ref) : Op → Ref × List String
     let r' : Ref := { r with delivered := max r.delivered (min h r.accepted.length) }
     (r', if r'.held.isEmpty then [] else r'.held ++ [rBytes])
   | .ackFail h => ({ r with delivered := max r.delivered (min h r.accepted.length) }, [])
+  | .freshSession => (⟨[], 0⟩, [])     -- a new stream-management session: nothing accepted on it yet
+  | .resumed => (r, [])
 
 def refRun (r : Ref) : List Op → Ref × List (List String)
   | [] => (r, [])
